@@ -1356,7 +1356,23 @@ class Interp:
             except TypeError:
                 return list(v)
         if isinstance(v, _SymSet):
-            return list(v.items)
+            # a set holds each value once: an element equal to an earlier one is dropped (case split on the equality) - strings and
+            # paths only; other element kinds keep the old behaviour (no duplicates assumed is NOT made: they are iterated as written)
+            out: list = []
+            for it in v.items:
+                dup = False
+                for o in out:
+                    a_, b_ = mk(it), mk(o)
+                    if isinstance(a_, Rec) and isinstance(b_, Rec) and a_.cls_name == b_.cls_name == "Path":
+                        a_, b_ = a_.fields["s"], b_.fields["s"]
+                    if sym.is_strlike(mk(a_)) and sym.is_strlike(mk(b_)):
+                        t = sym.eq_term(self.ctx, a_, b_)
+                        if t is True or (t is not False and self.ctx.branch(t, "set: element equal to an earlier one")):
+                            dup = True
+                            break
+                if not dup:
+                    out.append(it)
+            return out
         if isinstance(v, (range, enumerate, zip, map, filter, types.GeneratorType)) or hasattr(v, "__next__"):
             return list(v)
         if isinstance(v, _DictView):
